@@ -35,22 +35,31 @@ if HERE not in sys.path:
     sys.path.insert(0, HERE)
 from common import run_driver, widths, DEVNAMES, device_classes  # noqa: E402
 import asmcommon as ac  # noqa: E402
+import disgen  # noqa: E402
 
 ID = 'C08'
-LEAN_MODULES = ['Py65.Props.C08']
-NAMESPACES = ['Py65.Props.C08']
+LEAN_MODULES = ['Py65.Props.C08', disgen.GENEQ_MODULE, 'Py65.Props.C08g']
+NAMESPACES = ['Py65.Props.C08', 'Py65.Props.C08g', disgen.GENEQ_NAMESPACE]
 LEVEL = 'proof'
 USES_GEN = True
 EXPECTED_THEOREMS = ['Py65.Props.C08.roundtrip', 'Py65.Props.C08.roundtrip_exact', 'Py65.Props.C08.spec_decode_encode',
                      'Py65.Props.C08.roundtrip_past_top', 'Py65.Props.C08.shown_label', 'Py65.Props.C08.shown_hex',
-                     'Py65.Props.C08.noLabels_good']
+                     'Py65.Props.C08.noLabels_good',
+                     # the same for the GENERATED instruction_at (tie by regeneration, harness/py2lean_dis.py)
+                     'Py65.Props.C08g.roundtrip', 'Py65.Props.C08g.roundtrip_exact', 'Py65.Props.C08g.roundtrip_past_top',
+                     ] + disgen.GENEQ_THEOREMS
+pre_build = disgen.pre_build
 RULE = ('devices x opcode bytes 0..255 enumerated; operand cells and addresses from boundary classes then random; label '
         'tables of 0-6 identifier-like names aimed at operand / word / branch target / neighbours; branches: addresses x '
         'displacements (quick: 3000 x 16, thorough: all 65536 x 256 on the 8-bit devices).  distinct = distinct (device, '
         'pc, cells, labels); nontrivial = declared opcode (a text with a mnemonic is produced and re-assembled)')
 TRUSTED = [
-    'hand models Py65.Model.Disasm and Py65.Model.Asm (tied individually by C09 / C07 and here in composition, by '
-    'sampled correspondence); Py65.Model.AddrParser for reading the operand back (C15)',
+    'disassembler side: ' + disgen.TRUSTED_TEXT,
+    disgen.MODELLED_TEXT,
+    'assembler side: hand model Py65.Model.Asm (tied by C07 and here in composition with the real disassembler, by '
+    'sampled correspondence); Py65.Model.AddrParser for reading the operand back (C15); the hand model '
+    'Py65.Model.Disasm is still what the driver runs for the correspondence (it is proved equal to the generated '
+    'function)',
     'Spec.Asm (decode / encode on the documented tables of Spec/Isa.lean) and its Python transcription in '
     'harness/asmcommon.py',
 ]
@@ -61,6 +70,8 @@ ASSUMPTIONS = [
     'label tables hold identifier-like names: letter or _ first, then letters, digits, _ or .; not A / a; unique; values '
     'inside the address space (GoodLabels in Py65/Proofs/AsmRound.lean)',
     'operand cells are within the device byte width; the opcode cell is a byte',
+    'generated model: memory cells and addresses are not negative ("%0Nx" % n is modelled for n >= 0); the memory '
+    'object spans the address space and reduces addresses with its mask (mpuOf / stOf in DisasmGenEq.lean)',
 ]
 
 TWIN = {'abs': 'zpg', 'abx': 'zpx', 'aby': 'zpy'}
